@@ -4,8 +4,9 @@
 seed=$1; prop=$2; tier=${3:-quick}
 d=/var/tmp/xseed.$$; mkdir -p $d
 rsync -a --exclude .git --exclude esr/function_library /repo/ $d/
-(cd $d && git init -q && git apply --whitespace=nowarn /verif/seeded/$seed/patch.diff) || { echo "patch does not apply"; rm -rf $d; exit 2; }
-cp /verif/evidence/$prop.json $d/.evidence.bak 2>/dev/null
-cd /verif && ESRV_REPO=$d ./check $prop --tier $tier 2>&1 | grep -v "^WARNING conda" | grep -E "^VIOLATION|^KNOWN|^  |^\[" | cut -c1-260
-[ -f $d/.evidence.bak ] && cp $d/.evidence.bak /verif/evidence/$prop.json
+V="$(cd "$(dirname "$0")/../.." && pwd)"
+(cd $d && git init -q && git apply --whitespace=nowarn $V/seeded/$seed/patch.diff) || { echo "patch does not apply"; rm -rf $d; exit 2; }
+cp $V/evidence/$prop.json $d/.evidence.bak 2>/dev/null
+cd $V && ESRV_REPO=$d ./check $prop --tier $tier 2>&1 | grep -v "^WARNING conda" | grep -E "^VIOLATION|^KNOWN|^  |^\[" | cut -c1-260
+[ -f $d/.evidence.bak ] && cp $d/.evidence.bak $V/evidence/$prop.json
 rm -rf $d
